@@ -494,7 +494,10 @@ fn case_unbuffered(cx: &mut Cx, cs: u64) {
     // exactly its one sendto per emit and hands back the socket's error - no other transport, no other socket.
     let alt_server = if !udp && r.chance(1, 6) { Some(r.below(4)) } else { None };
     let mut stream_listener: Option<std::os::unix::net::UnixListener> = None;
-    let recv_path = if alt_server.is_some() { dir.join("dgram-unused.sock") } else { unix_path.clone() };
+    // ... and in another sixth the path is a symbolic link to the server's socket (statsd.sock -> agent-v1.sock): the sink
+    // keeps sending to the path it was given, link and all - the address on every datagram is that path
+    let via_symlink = !udp && alt_server.is_none() && r.chance(1, 6);
+    let recv_path = if alt_server.is_some() { dir.join("dgram-unused.sock") } else if via_symlink { dir.join("real-target.sock") } else { unix_path.clone() };
     match alt_server {
         Some(0) => {
             let l = std::os::unix::net::UnixListener::bind(&unix_path).unwrap();
@@ -514,6 +517,10 @@ fn case_unbuffered(cx: &mut Cx, cs: u64) {
         None => {}
     }
     let unix_recv = UnixDatagram::bind(&recv_path).unwrap();
+    if via_symlink {
+        std::os::unix::fs::symlink("real-target.sock", &unix_path).unwrap();
+        cx.rep.obs("unix_sinks_whose_path_is_a_symbolic_link_to_the_servers_socket", 1);
+    }
     let unix_decoy = UnixDatagram::bind(&unix_decoy_path).unwrap();
     unix_recv.set_read_timeout(Some(Duration::from_millis(500))).unwrap();
     unix_decoy.set_nonblocking(true).unwrap();
